@@ -248,6 +248,73 @@ theorem final_reported_forever (fixed : Bool) (j : Job) (post : List Op) (v : Vi
   have hc : (exec (step fixed) j post).status.completed = true := by rw [h1]; exact hfin
   simp [step, poll, readStatus_not_due (statusDue_of_completed hc), h1]
 
+/-! ## … and ONLY a final status: an unfinished job keeps following the server -/
+
+/-- "Stops polling" happens only once a final status was reported: in every state with a sent job whose
+status is not SUCCESS/ERROR/CANCELED — WAITING, RUNNING, SUSPENDED, CANCEL_REQUESTED and also UNKNOWN —
+every status-dependent operation (status()/is_*, cancel, rerun, get_results; any server answers) begins
+with a status request for this job.  Both versions of the code; every read due (throttle transparent). -/
+theorem polls_while_unfinished (fixed : Bool) (j : Job) (op : Op)
+    (hs : j.id.isSome = true) (hn : j.status.completed = false) (hop : op.readsStatus = true) :
+    (step fixed j op).2.calls.head? = some (.status j.id) :=
+  step_head_status fixed j op ((statusDue_iff j).2 ⟨hs, hn⟩) hop
+
+example : ({ born 1 with status := .unknown } : Job).id.isSome = true ∧
+    ({ born 1 with status := .unknown } : Job).status.completed = false ∧
+    (Op.getResults .conn .conn (.ok 1)).readsStatus = true := by decide
+
+/-- for a sent job, a status read sends nothing iff the job already holds a final status -/
+theorem poll_silent_iff_final (fixed : Bool) (j : Job) (v : View) (r : Resp) (hs : j.id.isSome = true) :
+    (step fixed j (.poll v r)).2.calls = [] ↔ j.status.completed = true := by
+  constructor
+  · intro h
+    cases hc : j.status.completed
+    · have := polls_while_unfinished fixed j (.poll v r) hs hc rfl
+      rw [h] at this
+      simp at this
+    · rfl
+  · intro h
+    simp [step, poll, readStatus_not_due (statusDue_of_completed h)]
+
+example : (born 1).id.isSome = true := rfl
+
+/-- over ANY history: as long as the job the history is talking to is sent and has not reached a final
+status, the next status-dependent operation asks the server about exactly this job. -/
+theorem keeps_polling_until_final (fixed : Bool) (ops : List Op) (op : Op)
+    (hs : (exec (step fixed) init ops).id.isSome = true)
+    (hn : (exec (step fixed) init ops).status.completed = false) (hop : op.readsStatus = true) :
+    Call.status (exec (step fixed) init ops).id ∈ (step fixed (exec (step fixed) init ops) op).2.calls :=
+  List.mem_of_mem_head? (polls_while_unfinished fixed _ op hs hn hop)
+
+example : (exec (step true) init [.execute (.ok 1), .poll .status (.status "mystery" 0)]).id.isSome = true ∧
+    (exec (step true) init [.execute (.ok 1), .poll .status (.status "mystery" 0)]).status.completed = false := by
+  decide +kernel
+
+/-- a successful read whose meaning is not final (an unknown word included) leaves the job polling -/
+theorem nonfinal_read_keeps_polling (fixed : Bool) (j : Job) (v : View) (s : String) (m : Nat)
+    (hd : statusDue j = true) (hnf : (fromServer s).completed = false) :
+    statusDue (step fixed j (.poll v (.status s m))).1 = true := by
+  obtain ⟨hid, hnc⟩ := (statusDue_iff j).1 hd
+  simp [step, poll, readStatus, hd, statusDue, hnf, hid, hnc]
+
+/-- UNKNOWN is not sticky: after an answer the client does not understand, the next answer — whatever it
+is — is requested, reported and cached (so `get_results` / `cancel` / `rerun` are guarded by it). -/
+theorem unknown_is_not_sticky (fixed : Bool) (j : Job) (v v' : View) (s s' : String) (m m' : Nat)
+    (hd : statusDue j = true) (hu : fromServer s = .unknown) :
+    (step fixed (step fixed j (.poll v (.status s m))).1 (.poll v' (.status s' m'))).2 =
+      ⟨view v' (fromServer s'), [.status j.id]⟩ ∧
+    (step fixed (step fixed j (.poll v (.status s m))).1 (.poll v' (.status s' m'))).1.status =
+      fromServer s' := by
+  have hd' := nonfinal_read_keeps_polling fixed j v s m hd (by rw [hu]; rfl)
+  have hid : (step fixed j (.poll v (.status s m))).1.id = j.id := by
+    simp [step, poll, readStatus, hd]
+  obtain ⟨h1, h2, _, _⟩ := poll_follows_server fixed _ v' s' m' hd'
+  rw [hid] at h1
+  exact ⟨h1, h2⟩
+
+example : statusDue (born 1) = true ∧ fromServer "mystery" = .unknown ∧ fromServer "unknown" = .unknown := by
+  decide +kernel
+
 /-! ## the error streak -/
 
 /-- Consecutive transient failures of the status request (connection errors, HTTP
@@ -628,6 +695,17 @@ theorem negative_delay_every_read_due (fixed : Bool) (delay : Int) (t : TJob) (n
     simp [this]
 
 example : (-1 : Int) < 0 ∧ (3 : Int) ≤ 3 := by decide
+
+/-- an overdue read (more than the refresh delay after the previous request) of a sent, unfinished job
+reaches the server — whatever non-final status the job shows — and restarts the delay -/
+theorem overdue_read_is_sent (fixed : Bool) (delay : Int) (t : TJob) (now : Int) (r : Resp)
+    (hd : statusDue t.job = true) (h : now - t.prev > delay) :
+    (readStatusAt fixed delay t now r).2.2 = [.status t.job.id] ∧
+    (readStatusAt fixed delay t now r).1.prev = now := by
+  unfold readStatusAt
+  simp [hd, h, readStatus_calls_due fixed t.job r hd]
+
+example : statusDue (⟨{ born 1 with status := .unknown }, 0⟩ : TJob).job = true ∧ (5 : Int) - 0 > 4 := by decide
 
 /-! # the full job object (`Model/C17X.lean`)
 
